@@ -6,6 +6,8 @@
 # benign-* variants must fire nothing; every other patch must fire at least one check.
 # With SEEDED=1 the patches are seeded/<pattern>*/patch.diff (the repository suite is not re-run: each was
 # confirmed when it was stored) and the lines go to seeded/MATRIX.txt.
+# CHECKS_LIST=<file of lines "<name> <check>..."> restricts the run to the named changes and, for each, to the named
+# checks (the cheap regression form: tools/seeded_list.txt is generated from the meta.json files).
 # VERIF_WALL_CAP_S (default here: 600) bounds a check that a change makes hang; it is then listed as broken.
 # The scratch worktree and its build output are removed at the end.
 V="$(cd "$(dirname "$0")/.." && pwd)"   # works from a snapshot of /verif as well (vp run)
@@ -30,15 +32,20 @@ trap cleanup EXIT
 if [ -n "${SEEDED:-}" ]; then LIST=$(ls seeded/${PAT}*/patch.diff); else LIST=$(ls mutants/${PAT}*.patch); fi
 for P in $LIST; do
   if [ -n "${SEEDED:-}" ]; then name=$(basename $(dirname $P)); else name=$(basename $P .patch); fi
+  checks="${CHECKS:-$ALL}"
+  if [ -n "${CHECKS_LIST:-}" ]; then   # a file of lines "<name> <check>..." : only these changes, only these checks
+    checks=$(awk -v n="$name" '$1==n {$1=""; print}' "$CHECKS_LIST"); [ -z "$checks" ] && continue
+  fi
   ( cd $SCR && git checkout -q -- . && git apply $V/$P ) || { echo "$name cannot-apply" | tee -a $OUT; continue; }
   if [ -n "${SEEDED:-}" ]; then t=confirmed-earlier; elif ( cd $SCR && CARGO_TARGET_DIR=$V/target/selftest${SHARD:-} cargo test --workspace --no-fail-fast --offline >$V/target/selftest${SHARD:-}.log 2>&1 ); then t=pass; else t=FAIL; fi
   fired=""; broken=""
-  for c in ${CHECKS:-$ALL}; do
+  for c in $checks; do
     VERIF_EVIDENCE_DIR=$SCR-evidence ./check $c --tier quick >$V/target/selftest-check${SHARD:-}.log 2>&1; rc=$?
     [ $rc -eq 1 ] && fired="$fired $c"
     [ $rc -ge 2 ] && broken="$broken $c"
   done
   ( cd $SCR && git checkout -q -- . )
-  echo "$name tests=$t fired=[${fired# }] broken=[${broken# }]" | tee -a $OUT
+  ran=""; [ -n "${CHECKS_LIST:-}" ] && ran=" ran=[$(echo $checks)]"
+  echo "$name tests=$t fired=[${fired# }] broken=[${broken# }]$ran" | tee -a $OUT
 done
 rm -rf $SCR-evidence
